@@ -61,6 +61,7 @@ type Case struct {
 	Clock0  int     `json:"clock0,omitempty"`     // version ids below this belong to earlier processes (pre-planted as @v<n>); the first Write of the case gets id clock0
 	Reader  bool    `json:"reader,omitempty"`     // run a concurrent reader goroutine
 	RelTgt  bool    `json:"rel_target,omitempty"` // Options.Target is given relative to the working directory (= sandbox root)
+	Alias   string  `json:"alias,omitempty"`      // how the caller builds the argument of consecutive Writes (see alias.go): shared map, reused buffers, mutation after return; "" = a fresh map per call, never touched again
 }
 
 func (c Case) key() string {
@@ -611,6 +612,10 @@ func runCase(c Case, drv *lib.Drv, res *lib.Result, work string, n int) {
 	}
 	nontrivial := false
 	skipTo := 0
+	cl := newCaller(c.Alias)
+	if cl != nil {
+		res.Hit("alias." + c.Alias)
+	}
 	for i, ev := range c.Events {
 		if i < skipTo {
 			continue
@@ -622,6 +627,8 @@ func runCase(c Case, drv *lib.Drv, res *lib.Result, work string, n int) {
 				return
 			}
 			skipTo = j + 1
+			// the caller died with its process: the Writes that follow come from a new one
+			cl = newCaller(c.Alias)
 			continue
 		}
 		res.Hit("event." + ev.Kind)
@@ -653,9 +660,24 @@ func runCase(c Case, drv *lib.Drv, res *lib.Result, work string, n int) {
 		if ev.Kind == "crash" {
 			crashAt = ev.CrashAt
 		}
-		cr := w.callWrite(files, crashAt)
+		// files is the snapshot the monitors judge against; with an alias mode the argument is
+		// built by the caller object and shares memory with the arguments of its other calls
+		arg := files
+		if cl != nil {
+			arg = cl.arg(files)
+			if !sameMap(arg, files) {
+				res.Note(fmt.Sprintf("harness bug: alias mode %s built an argument that differs from the set of write #%d", c.Alias, i))
+				return
+			}
+		}
+		cr := w.callWrite(arg, crashAt)
 		if !w.afterCall(drv, i, files, cr, true, &nontrivial) {
 			return
+		}
+		if cl != nil {
+			nf, has := nextFiles(c.Events, i)
+			cl.after(nf, has)
+			w.monitorAfterCallerMutation(i, files, cr)
 		}
 	}
 	if stopReader != nil {
@@ -744,7 +766,7 @@ func main() {
 		return
 	}
 	fl := lib.ParseFlags()
-	res := lib.NewResult("unit of evaluations = one step applied to the implementation (a Write/crash/restart event, a pre-planted or raw os.* operation); traces_validated_against_impl = those steps whose result (err, whole tree, reader's view, version ids) was compared with the model and agreed (<= evaluations; steps the model declares UNMODELLED are evaluated but not compared). distinct_nontrivial counts distinct HISTORIES: non-trivial if a Write in it is killed strictly inside its file-system steps (0 < done < all) or two Writes of it share a file name; raw-operation cases are never counted as non-trivial. Complete enumerations (every hook point of every Write of the family's histories): crash1, crash2, kill1, kill2 (quick: every 2nd point pair), prior, prior-kill (quick: every 2nd point), nocrash, foreign, badname, reltarget, restart, corpus; seeded random samples: random, rawfs, reader (real scheduling) — hence exhaustive=false for the run as a whole")
+	res := lib.NewResult("unit of evaluations = one step applied to the implementation (a Write/crash/restart event, a pre-planted or raw os.* operation); traces_validated_against_impl = those steps whose result (err, whole tree, reader's view, version ids) was compared with the model and agreed (<= evaluations; steps the model declares UNMODELLED are evaluated but not compared). distinct_nontrivial counts distinct HISTORIES: non-trivial if a Write in it is killed strictly inside its file-system steps (0 < done < all) or two Writes of it share a file name; raw-operation cases are never counted as non-trivial. Alias families (Case.alias: the arguments of consecutive Writes share the map / byte slices, or the caller modifies them right after Write returned) are judged against snapshots of the sets. Complete enumerations (every hook point of every Write of the family's histories): crash1, crash2, kill1, kill2 (quick: every 2nd point pair), prior, prior-kill (quick: every 2nd point), nocrash, foreign, badname, reltarget, restart, corpus, alias-nocrash, alias-crash, alias-kill (quick: every 2nd point), alias-badname, alias-reltarget, alias-restart; seeded random samples: random, alias-random, rawfs, reader, alias-reader (real scheduling) — hence exhaustive=false for the run as a whole")
 	work := fl.Work
 	if work == "" {
 		work, _ = os.MkdirTemp("", "c18")
